@@ -22,7 +22,7 @@ ENTRIES = {
     "a.rs.tmp": "file", "a.rs~": "file", "é.rs.tmp": "symlink->outside/o.rs", "sp ace.rs.tmp": "dirsymlink->outside",
 }
 EXT_LISTS = {"omitted": None, "[rs]": ["rs"], "[rs,rsx]": ["rs", "rsx"], "[RS]": ["RS"], "[txt]": ["txt"]}
-SRC_FORMS = ["./src", "src", "ABS", "./src/", "src/../src", "ABS/"]
+SRC_FORMS = ["./src", "src", "ABS", "./src/", "src/../src", "ABS/", "LINK"]     # LINK: source_dir names a symbolic link to the directory
 CFG_FORMS = ["relative", "absolute"]
 CWDS = ["config-dir", "parent", "unrelated"]
 
@@ -74,6 +74,9 @@ def _job(args):
                 with open(p, "w") as f:
                     f.write(STMT)
         sd = src if sf == "ABS" else (src + "/" if sf == "ABS/" else sf)
+        if sf == "LINK":
+            os.symlink("src", os.path.join(proj, "srclink"))
+            sd = "./srclink"
         with open(os.path.join(proj, "Breadlog.yaml"), "w") as f:
             f.write(cli.config_yaml(sd, extensions=EXT_LISTS[en], macros=[("log", "info")]))
         cwd = {"config-dir": proj, "parent": ws, "unrelated": other}[cw]
@@ -88,7 +91,7 @@ def _job(args):
         reported = sorted({os.path.normpath(os.path.join(cwd, f)) if not os.path.isabs(f) else os.path.normpath(f) for f, _, _ in rep.missing})
         res.append((subset, en, sf, cf, cw, check, r.exit, r.signal, r.panicked,
                     [(k, a is None, b is None) for k, a, b in diff if not ((a or b)[0] == "d" and a is not None and b is not None)],
-                    [os.path.relpath(p, src) for p in reported], sorted(os.listdir(tmp)), r.stdout[-600:]))
+                    [os.path.relpath(src + p[len(os.path.join(proj, "srclink")):] if p.startswith(os.path.join(proj, "srclink") + "/") else p, src) for p in reported], sorted(os.listdir(tmp)), r.stdout[-600:]))
         shutil.rmtree(root, ignore_errors=True)
         shutil.rmtree(tmp, ignore_errors=True)
     return res
